@@ -193,6 +193,7 @@ func runCheck(prop, tier string) int {
 		res                          *Result
 	}
 	var vios []vio
+	var undecided []string
 	for _, c := range g.contracts.Order {
 		if !hasProp(c, prop) {
 			continue
@@ -208,7 +209,11 @@ func runCheck(prop, tier string) int {
 		}
 		vc := g.genVC(fn, c)
 		if vc.Err != nil {
-			vios = append(vios, vio{name: shortFuncName(fn) + variantSuffix(c) + "/translate", detail: "the function under contract could not be translated (outside the verified subset, or a contract clause no longer type-checks): " + vc.Err.Error()})
+			// The contract no longer fits the function (a loop invariant names a local that was renamed, a
+			// loop or call the contract is keyed to is gone) or the function left the verified subset.
+			// Nothing was proved and nothing was refuted: undecided, which is not a violation. It is
+			// reported, counted as an obligation that was not discharged, and listed in the evidence.
+			undecided = append(undecided, shortFuncName(fn)+variantSuffix(c)+": "+vc.Err.Error())
 			continue
 		}
 		vcs = append(vcs, vc)
@@ -255,7 +260,7 @@ func runCheck(prop, tier string) int {
 			trusted[a] = true
 		}
 	}
-	if nOb == 0 && len(vios) == 0 {
+	if nOb == 0 && len(vios) == 0 && len(undecided) == 0 {
 		fmt.Fprintf(os.Stderr, "govc: no obligations generated for %s (vacuous check)\n", prop)
 		return 2
 	}
@@ -549,6 +554,16 @@ func runCheck(prop, tier string) int {
 		})
 		samples = samples[:60]
 	}
+	// functions whose contract could not be applied: one undischarged obligation each, no violation
+	sort.Strings(undecided)
+	for _, u := range undecided {
+		obligations++
+		fmt.Printf("UNDECIDED property=%s %s\n", prop, u)
+		fmt.Fprintf(os.Stderr, "govc: undecided (neither proved nor refuted; the contract does not fit the current code): %s\n", u)
+	}
+	if undecided == nil {
+		undecided = []string{}
+	}
 	ev := map[string]interface{}{
 		"property_id": prop,
 		"tier":        tier,
@@ -571,7 +586,8 @@ func runCheck(prop, tier string) int {
 			"covers":                   map[string]int{"total": covers, "reachable": covOK},
 			"known_findings":           known,
 			"bounded_standins":         []string{},
-			"explanation":              "every obligation generated from the current source of the functions under contract was discharged (unsat) unless listed as a violation",
+			"undecided_functions":      undecided,
+			"explanation":              "every obligation generated from the current source of the functions under contract was discharged (unsat) unless listed as a violation; a function listed under undecided_functions could not be brought under its contract on this tree (counted as one undischarged obligation, not as a violation)",
 		},
 		"assumptions": assumptions,
 		"wall_s":      time.Since(t0).Seconds(),
